@@ -6,7 +6,7 @@ import ast
 from framelint.core import rule, Ctx
 from framelint.srcmodel import walk_own, AnalysisError
 from framelint.canon import (canon_function, show, S, to_poly, mk_lt, mk_and, mk_or, mk_not, mk_eq, k_num, k_str, contains,
-                             skey, atoms_of, Sigma, Poly, diff_paths, K_FALSE)
+                             skey, atoms_of, Sigma, Poly, diff_paths, K_FALSE, K_TRUE)
 from framelint.cfg import EXIT, ENTRY
 from .common import (GEOM, NETLIST, MODULE, NTYPES, YREAD, sigma_xy, stmt_calls, exit_facts, facts_text, call_name,
                      norm_stmt, assert_conjuncts, enclosing_loops, kw_value)
@@ -268,6 +268,15 @@ def r1(ctx: Ctx) -> None:
                        "weight is stripped, so [B, 3] is loaded as a one-pin net", lineno=fe.node.lineno, members=show(members)[:200])
     ctx.site(fe.where, "every member is a string")
     str_ok = any(il[0] == "for" and ("c", ("g", "isinstance"), (("s", ev, il[1]), ("g", "str")), ()) in top_asserts(il[3]) for il in lps[0][3])
+    if not str_ok:      # the same check spelt 'assert all(isinstance(name, str) for name in <the member entries>)'
+        b0 = ("b", 1, 0)
+        for t in top_asserts(lps[0][3]):
+            if t[0] == "c" and t[1] == ("g", "all") and len(t[2]) == 1 and t[2][0][0] == "comp" and len(t[2][0][3]) == 1:
+                comp = t[2][0]
+                bv, it, cond = comp[3][0]
+                if comp[2] == (("c", ("g", "isinstance"), (bv, ("g", "str")), ()),) and cond == K_TRUE and contains(it, ev) and \
+                        (it == ev or (it[0] == "s" and it[1] == ev and it[2][0] == "slice")):
+                    str_ok = True
     if not str_ok:
         ctx.report(fe.where, "reject-non-string-member", "non-string net members are not refused", lineno=fe.node.lineno)
 
